@@ -184,6 +184,7 @@ type childResult struct {
 	Done      bool     `json:"done"`
 	Violation string   `json:"violation,omitempty"`
 	Kind      string   `json:"kind,omitempty"`   // lost-write | panic
+	File      int      `json:"file"`             // token file of a lost write
 	Errors    []string `json:"errors,omitempty"` // unexpected (non-property) errors, informational
 	Ops       int64    `json:"ops"`
 	Acked     int      `json:"acked"`
@@ -354,9 +355,14 @@ func run(c Case) kit.Result {
 			return kit.Result{Classes: append(classes, "inconclusive:child-died")}
 		case o.res.Violation != "":
 			res := kit.Fail("%s", o.res.Violation)
-			if o.res.Kind == "lost-write" && hasStep(eff, "flushdir") {
-				// signature of known finding DIRFLUSH-STALE (see below)
-				res.Known = dirFlushStale
+			if o.res.Kind == "lost-write" {
+				// signatures of the known findings DIRFLUSH-STALE and META-LOST-UPDATE (see below)
+				switch {
+				case hasStep(eff, "flushdir", -1):
+					res.Known = dirFlushStale
+				case hasStep(eff, "setmode", o.res.File) || hasStep(eff, "setmtime", o.res.File):
+					res.Known = metaLostUpdate
+				}
 			}
 			return res
 		}
@@ -375,10 +381,17 @@ func run(c Case) kit.Result {
 // it; deadlocks in such cases and lost writes in all other cases are still reported.
 const dirFlushStale = "DIRFLUSH-STALE"
 
-func hasStep(c Case, kind string) bool {
+// Known finding META-LOST-UPDATE: File.SetMode/SetModTime read the file node, build a new
+// node from it and store it without excluding writers (no desclock, nodeLock only around the
+// final assignment); a descriptor Close/Flush that lands in between is overwritten, so an
+// acknowledged write disappears. While it is open, a lost write to a file that some worker
+// also SetMode/SetModTime's is attributed to it.
+const metaLostUpdate = "META-LOST-UPDATE"
+
+func hasStep(c Case, kind string, file int) bool {
 	for _, sc := range c.Workers {
 		for _, s := range sc {
-			if s.Kind == kind {
+			if s.Kind == kind && (file < 0 || s.File == file) {
 				return true
 			}
 		}
@@ -510,7 +523,7 @@ func nonTrivial(c Case) bool {
 
 var spec = kit.Spec[Case]{
 	Prop: "C20", Name: "conc",
-	Rule:  "2-4 real goroutines in a child process (GOMAXPROCS 2|16), each looping 60-500 times over a generated script (<=6 steps) of read / append-token write (+-Sync, +-descriptor Flush) / Mode / ModTime / SetMode / SetModTime / Size / List / Root.Flush / FlushPath(file|dir) / Mv(file|dir) on 3 shared files in 2 directories; liveness by watchdog + SIGQUIT dump signature, safety by per-file append-only tokens (every token whose Close/Flush returned before a read/flush began must be in what that read/flush returns, and in the final flushed root); non-trivial = two workers operate on the same file and one of them writes content or metadata",
+	Rule:  "2-4 real goroutines in a child process (GOMAXPROCS 2|16), each looping 60-500 times over a generated script (<=6 steps) of read / slot write (+-Sync, +-descriptor Flush) / Mode / ModTime / SetMode / SetModTime / Size / List / Root.Flush / FlushPath(file|dir) / Mv(file|dir) on 3 shared files in 2 directories; liveness by watchdog + SIGQUIT dump signature, safety by per-worker slots with growing sequence numbers in each file (a write whose Close/Flush returned before a read/flush began must be visible in what that read/flush returns, and in the final flushed root); non-trivial = two workers operate on the same file and one of them writes content or metadata",
 	Quick: 40, Thorough: 75,
 	Gen: gen, Run: run,
 }
@@ -533,20 +546,21 @@ type childRun struct {
 	c     Case
 
 	mu     sync.Mutex
-	acked  [][]string // per token file: tokens whose Close/Flush has returned nil
+	acked  [][]int // per token file and worker slot: highest sequence number whose Close/Flush has returned nil
 	viol   string
 	vkind  string
+	vfile  int
 	errs   []string
 	nerrs  int
 	ops    atomic.Int64
 	mtimeN atomic.Int64
 }
 
-func (r *childRun) violation(kind, format string, a ...any) {
+func (r *childRun) violation(kind string, file int, format string, a ...any) {
 	r.mu.Lock()
 	if r.viol == "" {
 		r.viol = fmt.Sprintf(format, a...)
-		r.vkind = kind
+		r.vkind, r.vfile = kind, file
 	}
 	r.mu.Unlock()
 }
@@ -566,44 +580,75 @@ func (r *childRun) opError(what string, err error) {
 	r.mu.Unlock()
 }
 
-func (r *childRun) snapshot(f int) []string {
+func (r *childRun) snapshot(f int) []int {
 	r.mu.Lock()
 	defer r.mu.Unlock()
-	return append([]string(nil), r.acked[f]...)
+	return append([]int(nil), r.acked[f]...)
 }
 
-func (r *childRun) snapshotAll() [][]string {
+func (r *childRun) snapshotAll() [][]int {
 	r.mu.Lock()
 	defer r.mu.Unlock()
-	out := make([][]string, len(r.acked))
+	out := make([][]int, len(r.acked))
 	for i := range r.acked {
-		out[i] = append([]string(nil), r.acked[i]...)
+		out[i] = append([]int(nil), r.acked[i]...)
 	}
 	return out
 }
 
-func (r *childRun) ack(f int, tok string) {
+func (r *childRun) ack(f, w, n int) {
 	r.mu.Lock()
-	r.acked[f] = append(r.acked[f], tok)
+	if n > r.acked[f][w] {
+		r.acked[f][w] = n
+	}
 	r.mu.Unlock()
 }
 
-const tokenLen = 12
+// Every token file consists of maxWorkers fixed slots of tokenLen bytes; worker w only ever
+// overwrites slot w with its next sequence number (one WriteAt per descriptor). A write is
+// acknowledged when the descriptor's Flush or Close has returned nil. Sequence numbers of a
+// slot only grow, so "acknowledged write (w,n) is visible" means: slot w reads >= n. The
+// files stay 48 bytes long, which keeps every operation cheap.
+const (
+	tokenLen   = 12
+	maxWorkers = 4
+)
 
 func token(w, n int) string { return fmt.Sprintf("w%02dn%07d;", w, n) } // 12 bytes
 
-func tokensOf(b []byte) map[string]bool {
-	m := map[string]bool{}
-	for i := 0; i+tokenLen <= len(b); i += tokenLen {
-		m[string(b[i:i+tokenLen])] = true
+func initialContent() []byte {
+	var b []byte
+	for w := 0; w < maxWorkers; w++ {
+		b = append(b, token(w, 0)...)
 	}
-	return m
+	return b
 }
 
-func missing(have map[string]bool, want []string) (string, bool) {
-	for _, t := range want {
-		if !have[t] {
-			return t, true
+func anyAcked(want []int) bool {
+	for _, n := range want {
+		if n > 0 {
+			return true
+		}
+	}
+	return false
+}
+
+// lost reports the first acknowledged write that content b does not show.
+func lost(b []byte, want []int) (string, bool) {
+	for w, n := range want {
+		if n == 0 {
+			continue
+		}
+		if len(b) < (w+1)*tokenLen {
+			return fmt.Sprintf("%q (content has only %d bytes)", token(w, n), len(b)), true
+		}
+		slot := string(b[w*tokenLen : (w+1)*tokenLen])
+		var gw, gn int
+		if _, err := fmt.Sscanf(slot, "w%02dn%07d;", &gw, &gn); err != nil || gw != w {
+			return fmt.Sprintf("%q (slot holds %q)", token(w, n), slot), true
+		}
+		if gn < n {
+			return fmt.Sprintf("%q (slot holds the older %q)", token(w, n), slot), true
 		}
 	}
 	return "", false
@@ -646,28 +691,28 @@ func (r *childRun) resolveDAG(root ipld.Node, path string) (ipld.Node, error) {
 	return cur, nil
 }
 
-func (r *childRun) checkFlushedRoot(when string, want [][]string) {
+func (r *childRun) checkFlushedRoot(when string, want [][]int) {
 	nd, err := r.root.GetDirectory().GetNode()
 	if err != nil {
 		r.opError(when+": root GetNode", err)
 		return
 	}
 	for f, p := range filePaths {
-		if len(want[f]) == 0 {
+		if !anyAcked(want[f]) {
 			continue
 		}
 		fn, err := r.resolveDAG(nd, p)
 		if err != nil {
-			r.violation("lost-write", "%s: %s cannot be resolved in the flushed root although %d writes to it were acknowledged: %v", when, p, len(want[f]), err)
+			r.violation("lost-write", f, "%s: %s cannot be resolved in the flushed root although writes to it were acknowledged: %v", when, p, err)
 			return
 		}
 		b, err := r.readDAGFile(fn)
 		if err != nil {
-			r.violation("lost-write", "%s: %s in the flushed root cannot be read: %v", when, p, err)
+			r.violation("lost-write", f, "%s: %s in the flushed root cannot be read: %v", when, p, err)
 			return
 		}
-		if tok, miss := missing(tokensOf(b), want[f]); miss {
-			r.violation("lost-write", "%s: acknowledged write %q to %s is not in the flushed root (file has %d bytes, %d writes were acknowledged before the flush began)", when, tok, p, len(b), len(want[f]))
+		if tok, miss := lost(b, want[f]); miss {
+			r.violation("lost-write", f, "%s: write %s to %s, acknowledged before the flush began, is not in the flushed root", when, tok, p)
 			return
 		}
 	}
@@ -697,8 +742,8 @@ func (r *childRun) step(w int, s Step, seq *int) {
 		if cerr != nil {
 			r.opError("close(read)", cerr)
 		}
-		if tok, miss := missing(tokensOf(b), want); miss {
-			r.violation("lost-write", "worker %d read of %s: acknowledged write %q is not visible (read %d bytes; %d writes had been acknowledged before the read began)", w, filePaths[s.File], tok, len(b), len(want))
+		if tok, miss := lost(b, want); miss {
+			r.violation("lost-write", s.File, "worker %d read of %s: write %s, acknowledged before the read began, is not visible", w, filePaths[s.File], tok)
 		}
 
 	case "write", "writeflush":
@@ -714,13 +759,7 @@ func (r *childRun) step(w int, s Step, seq *int) {
 		}
 		*seq++
 		tok := token(w, *seq)
-		sz, err := fd.Size()
-		if err != nil {
-			r.opError("size", err)
-			fd.Close()
-			return
-		}
-		n, err := fd.WriteAt([]byte(tok), sz)
+		n, err := fd.WriteAt([]byte(tok), int64(w*tokenLen))
 		if err != nil || n != len(tok) {
 			if err == nil {
 				err = errors.New("short write")
@@ -735,7 +774,7 @@ func (r *childRun) step(w int, s Step, seq *int) {
 				fd.Close()
 				return
 			}
-			r.ack(s.File, tok) // flushed: acknowledged
+			r.ack(s.File, w, *seq) // flushed: acknowledged
 			if err := fd.Close(); err != nil {
 				r.opError("close(write)", err)
 			}
@@ -745,7 +784,7 @@ func (r *childRun) step(w int, s Step, seq *int) {
 			r.opError("close(write)", err)
 			return
 		}
-		r.ack(s.File, tok) // descriptor closed: acknowledged
+		r.ack(s.File, w, *seq) // descriptor closed: acknowledged
 
 	case "mode", "modtime", "setmode", "setmtime", "size":
 		fi, err := r.file(s.File)
@@ -807,8 +846,8 @@ func (r *childRun) step(w int, s Step, seq *int) {
 			r.opError("read flushed node", err)
 			return
 		}
-		if tok, miss := missing(tokensOf(b), want); miss {
-			r.violation("lost-write", "worker %d FlushPath(%s): acknowledged write %q is not in the returned node (%d bytes; %d writes acknowledged before the call)", w, filePaths[s.File], tok, len(b), len(want))
+		if tok, miss := lost(b, want); miss {
+			r.violation("lost-write", s.File, "worker %d FlushPath(%s): write %s, acknowledged before the call, is not in the returned node", w, filePaths[s.File], tok)
 		}
 
 	case "flushdir":
@@ -840,7 +879,7 @@ func (r *childRun) worker(w int, script []Step, wg *sync.WaitGroup) {
 	defer wg.Done()
 	defer func() {
 		if p := recover(); p != nil {
-			r.violation("panic", "worker %d: panic under concurrent use: %v\n%s", w, p, debug.Stack())
+			r.violation("panic", -1, "worker %d: panic under concurrent use: %v\n%s", w, p, debug.Stack())
 		}
 	}()
 	seq := 0
@@ -868,11 +907,15 @@ func (r *childRun) setup() error {
 			return err
 		}
 	}
-	for _, p := range append(append([]string(nil), filePaths...), movFileA) {
-		nd := dag.NodeWithData(ft.FilePBData(nil, 0))
+	init := initialContent()
+	for _, p := range filePaths {
+		nd := dag.NodeWithData(ft.FilePBData(init, uint64(len(init))))
 		if err := mfs.PutNode(r.root, p, nd); err != nil {
 			return err
 		}
+	}
+	if err := mfs.PutNode(r.root, movFileA, dag.NodeWithData(ft.FilePBData(nil, 0))); err != nil {
+		return err
 	}
 	return r.root.Flush()
 }
@@ -881,7 +924,10 @@ func runInChild(c Case) childResult {
 	runtime.GOMAXPROCS(c.Procs)
 	ctx, cancel := context.WithCancel(context.Background())
 	defer cancel()
-	r := &childRun{ctx: ctx, dserv: newDagserv(), c: c, acked: make([][]string, len(filePaths))}
+	r := &childRun{ctx: ctx, dserv: newDagserv(), c: c, acked: make([][]int, len(filePaths))}
+	for f := range r.acked {
+		r.acked[f] = make([]int, maxWorkers)
+	}
 	if err := r.setup(); err != nil {
 		return childResult{Done: true, Errors: []string{"setup: " + err.Error()}}
 	}
@@ -897,22 +943,22 @@ func runInChild(c Case) childResult {
 			want := r.snapshot(f)
 			fi, err := r.file(f)
 			if err != nil {
-				r.violation("lost-write", "final: %s cannot be looked up: %v", filePaths[f], err)
+				r.violation("lost-write", f, "final: %s cannot be looked up: %v", filePaths[f], err)
 				break
 			}
 			fd, err := fi.Open(ctx, mfs.Flags{Read: true})
 			if err != nil {
-				r.violation("lost-write", "final: %s cannot be opened: %v", filePaths[f], err)
+				r.violation("lost-write", f, "final: %s cannot be opened: %v", filePaths[f], err)
 				break
 			}
 			b, err := io.ReadAll(fd)
 			fd.Close()
 			if err != nil {
-				r.violation("lost-write", "final: %s cannot be read: %v", filePaths[f], err)
+				r.violation("lost-write", f, "final: %s cannot be read: %v", filePaths[f], err)
 				break
 			}
-			if tok, miss := missing(tokensOf(b), want); miss {
-				r.violation("lost-write", "final read of %s: acknowledged write %q is not visible (%d bytes, %d acknowledged writes)", filePaths[f], tok, len(b), len(want))
+			if tok, miss := lost(b, want); miss {
+				r.violation("lost-write", f, "final read of %s: acknowledged write %s is not visible", filePaths[f], tok)
 				break
 			}
 		}
@@ -929,9 +975,11 @@ func runInChild(c Case) childResult {
 	r.root.Close()
 	acked := 0
 	for _, a := range r.acked {
-		acked += len(a)
+		for _, n := range a {
+			acked += n
+		}
 	}
-	return childResult{Done: true, Violation: r.viol, Kind: r.vkind, Errors: r.errs, Ops: r.ops.Load(), Acked: acked}
+	return childResult{Done: true, Violation: r.viol, Kind: r.vkind, File: r.vfile, Errors: r.errs, Ops: r.ops.Load(), Acked: acked}
 }
 
 // TestChildC20 is the child-process entry point; it does nothing in a normal test run.
